@@ -283,7 +283,7 @@ def seg_of(blocks):
     ret, val = None, None
     for i, b in enumerate(blocks):
         for l in b:
-            if (l.startswith("sink ") or l.startswith("ev ")) and not LOG.match(l):
+            if (l.startswith("sink ") or l.startswith("ev ") or l.startswith("rcmd ")) and not LOG.match(l):
                 out.append(l)
             elif l.startswith("ret ") and i == 0 and ret is None:
                 t = l.split(" ", 2)
@@ -782,6 +782,78 @@ def judge(ctx, binp, exes, bad):
         ctx.violation(key, desc, rp)
 
 
+class ReadyExe:
+    """A setter called from the probe while it handles 'ready' (the event says that the pipe accepts control
+    commands), a getter after the allocation has returned: for the specification a Set followed by a Get."""
+    def __init__(self, opt, v):
+        self.opt, self.v = opt, v
+        self.cmds = [("set", v), ("get",)]
+        self.source = "setter inside the ready probe"
+        self.events = None
+        self.run = None
+
+    def make_run(self):
+        o = self.opt
+        segs = []
+        self.inew = None
+        for l in o.setup:
+            t = l.split()
+            if t[0] == "new" and t[1] == o.target and self.inew is None:
+                segs.append(["onev %s ready %s" % (o.target, o.set_line(self.v))])
+                self.inew = len(segs)
+            segs.append([l])
+        segs.append([o.get_line()])
+        self.iget = len(segs) - 1
+        segs.append(list(o.end))
+        self.run = Run(segs)
+        return self.run
+
+    def build_events(self, hid):
+        sg = self.run.segs
+        new, get = sg[self.inew], sg[self.iget]
+        if self.run.crashed or not any(x.startswith("rcmd ") for x in new.out):
+            self.events = None          # the pipe threw no 'ready' the probe could react to, or the run died
+            return
+        self.events = [{"e": "Reset", "hid": hid, "pipe": self.opt.pipe, "opt": self.opt.opt},
+                       {"e": "Set", "v": self.v, "ret": new.ret, "retb": new.ret, "retc": new.ret if new.ret == 0 else 0,
+                        "oa": [], "ob": [], "oc": []},
+                       {"e": "Get", "ret": get.ret, "res": get.val if get.val is not None else "?", "oa": []},
+                       {"e": "End", "oa": [], "ob": [], "oc": []}]
+
+
+def ready_part(ctx, binp, opts):
+    exes = []
+    for o in opts:
+        if not any(l.split()[:2] == ["new", o.target] for l in o.setup):
+            continue
+        for v in o.acc[:2]:
+            exes.append(ReadyExe(o, v))
+    exec_runs(ctx, binp, [e.make_run() for e in exes], jobs=8, per_proc=60)
+    for i, e in enumerate(exes):
+        e.build_events(i)
+    done = [e for e in exes if e.events is not None]
+    for i, e in enumerate(done):
+        e.events[0]["hid"] = i
+    ctx.extra["setters_called_inside_the_ready_probe"] = len(done)
+    if len(done) < len(exes) // 2 or not done:
+        raise vlib.ToolError("vacuity: the probe reacted to 'ready' in %d of %d allocations only" % (len(done), len(exes)))
+    bad = validate(ctx, done, "ready", parts=1)
+    for i, (line, invs) in sorted(bad.items()):
+        e = done[i]
+        # a second, fresh run must repeat it
+        again = ReadyExe(e.opt, e.v)
+        exec_runs(ctx, binp, [again.make_run()], jobs=1, per_proc=1)
+        again.build_events(0)
+        if again.events is None or not validate(ctx, [again], "ready_re", parts=1):
+            raise vlib.ToolError("rejected execution did not reproduce: %s set %s inside the ready probe" % (e.opt.name, e.v))
+        ev = again.events[line - 1] if 0 < line <= len(again.events) else {}
+        key = "%s;%s;set-inside-ready-probe-lost" % (e.opt.pipe, e.opt.opt)
+        ctx.violation(key, "%s: %s accepted from the probe handling 'ready' (the pipe says it responds to control commands) but "
+                      "the getter called after the allocation returned answers %s: event %d %s breaks %s" % (
+                          key, e.opt.set_line(e.v), json.dumps(ev.get("res")), line, json.dumps(ev)[:300], ",".join(invs)),
+                      {"option": e.opt.name, "value": e.v, "script": [l for s_ in again.run.segments for l in s_], "events": again.events})
+
+
 def script_text(cmds):
     return "; ".join(c[0] + ("" if len(c) == 1 else " " + str(c[1])) for c in cmds)
 
@@ -955,6 +1027,8 @@ def run(ctx):
         ex = st["err"]
         raise ex if isinstance(ex, vlib.ToolError) else vlib.ToolError("corruption self-test: %r" % ex)
     mark('judge')
+    ready_part(ctx, binp, opts)
+    mark('ready')
     # a behaviour the real code answers differently than predicted without
     # breaking the specification (e.g. acceptance depending on the history)
     unexplained = [d for d in diffs if not any(v[0].startswith(d["option"].split(".")[0] + ";") for v in ctx.violations)
